@@ -62,11 +62,32 @@ def _matrix(ctx, c, f, pdu, klass):
         res["up"].append({"ctor": norm(k.func) if k is not None else None, "source": kw.get("source"), "destination": kw.get("destination"),
                           "data": norm(k.args[0]) if k is not None and k.args else None,
                           "needs_server": not ev.may_hold(fa, {"self.serverPeer": False, "isinstance:%s" % pdu: klass})})
+    sends = []
     for x in _arm_calls(f, pdu, klass, ev, "request"):
         loops = [l for l in enclosing_loops(x) if isinstance(l, ast.For)]
+        split = False
+        if loops and _dest_before(x) is None:
+            # the send follows an if/else that chooses the destination (common tail): one entry per way through the loop body
+            from .common import body_paths, consistent, path_nodes
+            from ..paths import Fact
+            for p_ in body_paths(loops[0].body):
+                nodes = path_nodes(p_)
+                if not any(nd is x for nd in nodes) or not consistent(p_.conds()):
+                    continue
+                dst = None
+                for nd in nodes:
+                    if nd is x:
+                        break
+                    if isinstance(nd, ast.Assign) and norm(nd.targets[0]) == "xpdu.pduDestination":
+                        dst = norm(nd.value)
+                extra = [Fact(t_, pol_, "arm") for t_, pol_ in p_.conds()]
+                sends.append((x, dst, facts_at(loops[0]) + extra))
+                split = True
+        if not split:
+            sends.append((x, _dest_before(x), facts_at(x)))
+    for x, dest, fa in sends:
+        loops = [l for l in enclosing_loops(x) if isinstance(l, ast.For)]
         k = _ctor_of(f, x)
-        dest = _dest_before(x)
-        fa = facts_at(x)
         ent = {"ctor": norm(k.func) if k is not None else None, "originator": norm(k.args[0]) if k is not None and k.args else None, "dest": dest, "facts": fa, "call": x}
         KA = "%s.pduDestination.addrType" % pdu
         # how the message arrived (unicast to us / directed broadcast) under which this send is reachable
@@ -294,7 +315,14 @@ def r3(ctx):
         ok = reach == [-1, 0] and decs and decs[0].lineno < dels[0].lineno
     ctx.check("BBMD.process_task:expiry", ok, where(m, t), "an entry is removed exactly when its remaining time reaches zero (after the decrement)")
     lp = [l for l in walk_shallow(t) if isinstance(l, ast.For)]
-    ok = len(lp) == 1 and norm(lp[0].iter) == "range(len(self.bbmdFDT) - 1, -1, -1)"
+    ok = len(lp) == 1
+    if ok:
+        try:
+            # the order of the indexes visited for a table of four entries
+            order = list(ev.value(lp[0].iter, {"len(self.bbmdFDT)": 4, "self.bbmdFDT": (0, 0, 0, 0)}))
+        except (NotConst, TypeError):
+            order = None
+        ok = order == [3, 2, 1, 0]
     ctx.check("BBMD.process_task:descending-scan", ok, where(m, t), "entries are deleted while scanning: the scan must run from the last index down")
     init = c.methods["__init__"]
     rc = [x for x in calls_in(init) if norm(x.func) == "RecurringTask.__init__"]
